@@ -211,3 +211,80 @@ pub fn note_revision_content(w: &mut World, uuid: &str, rev: &str, parent: &Opti
     }
     Ok(())
 }
+
+/// C16 via hook 1: `apply_diff_patch(old, make_diff_patch(old, new)) == new` for a successive
+/// pair of array versions that a history produced.
+#[cfg(not(feature = "real"))]
+pub fn diff_patch_contract(w: &mut World, uuid: &str, old: &[String], new: &[String]) -> Res {
+    use serde_json::Value;
+    let o: Vec<Value> = old.iter().map(|s| Value::from(s.clone())).collect();
+    let n: Vec<Value> = new.iter().map(|s| Value::from(s.clone())).collect();
+    let r = crate::api::guard(|| {
+        let patch = melda::verif::make_diff_patch(&o, &n).map_err(|e| e.to_string())?;
+        let mut x = o.clone();
+        melda::verif::apply_diff_patch(&mut x, &patch).map_err(|e| e.to_string())?;
+        Ok::<(Vec<Value>, Vec<Value>), String>((x, patch))
+    });
+    w.bump("probe.diff_patch_pair_checked");
+    match r {
+        Ok(Ok((x, patch))) => {
+            if x != n {
+                viol!(w, "edit-script-roundtrip", "diff-patch-roundtrip", "array {}: applying make_diff_patch({:?}, {:?}) = {} to the old version gives {:?}", uuid, old, new, serde_json::Value::from(patch), x);
+            }
+            if o == n && !patch.is_empty() {
+                viol!(w, "edit-script-roundtrip", "diff-patch-nonempty-for-equal", "array {}: equal versions {:?} give a non-empty edit script {}", uuid, old, serde_json::Value::from(patch));
+            }
+        }
+        Ok(Err(e)) => viol!(w, "edit-script-roundtrip", "diff-patch-err", "array {}: edit script between {:?} and {:?} fails: {}", uuid, old, new, e),
+        Err(c) => viol!(w, "edit-script-roundtrip", format!("diff-patch-{}", c.class()), "array {}: edit script between {:?} and {:?} aborts: {}", uuid, old, new, c.text()),
+    }
+    Ok(())
+}
+#[cfg(feature = "real")]
+pub fn diff_patch_contract(_w: &mut World, _uuid: &str, _old: &[String], _new: &[String]) -> Res {
+    Ok(())
+}
+
+/// C06 via hook 1: `merge_arrays` on a pair of duplicate-free orders that a history produced:
+/// union, no duplicates, the base order is kept, and both orders are kept when they agree on
+/// their common elements.
+#[cfg(not(feature = "real"))]
+pub fn merge_pair_contract(w: &mut World, uuid: &str, a: &[String], b: &[String]) -> Res {
+    use serde_json::Value;
+    let dup = |v: &[String]| v.iter().collect::<BTreeSet<_>>().len() != v.len();
+    if dup(a) || dup(b) {
+        return Ok(());
+    }
+    for (m, n) in [(a, b), (b, a)] {
+        let mv: Vec<Value> = m.iter().map(|s| Value::from(s.clone())).collect();
+        let mut nv: Vec<Value> = n.iter().map(|s| Value::from(s.clone())).collect();
+        let r = crate::api::guard(|| {
+            melda::verif::merge_arrays(&mv, &mut nv);
+            nv
+        });
+        w.bump("probe.merge_pair_checked");
+        let out: Vec<String> = match r {
+            Ok(v) => v.iter().map(|x| x.as_str().unwrap_or("?").to_string()).collect(),
+            Err(c) => viol!(w, "merge-pair", format!("merge-pair-{}", c.class()), "array {}: merge_arrays({:?}, {:?}) aborts: {}", uuid, m, n, c.text()),
+        };
+        let want: BTreeSet<&String> = m.iter().chain(n.iter()).collect();
+        let got: BTreeSet<&String> = out.iter().collect();
+        if got != want || out.len() != want.len() {
+            viol!(w, "merge-pair", "merge-pair-set", "array {}: merge_arrays({:?}, {:?}) = {:?} is not the duplicate-free union", uuid, m, n, out);
+        }
+        let keeps = |o: &[String]| o.iter().filter(|e| out.contains(e)).collect::<Vec<_>>() == out.iter().filter(|e| o.contains(e)).collect::<Vec<_>>();
+        if !keeps(n) {
+            viol!(w, "merge-pair", "merge-pair-base-order", "array {}: merge_arrays({:?}, {:?}) = {:?} reorders the base", uuid, m, n, out);
+        }
+        let common_m: Vec<&String> = m.iter().filter(|e| n.contains(e)).collect();
+        let common_n: Vec<&String> = n.iter().filter(|e| m.contains(e)).collect();
+        if common_m == common_n && !keeps(m) {
+            viol!(w, "merge-pair", "merge-pair-other-order", "array {}: merge_arrays({:?}, {:?}) = {:?} reorders the merged-in version although both agree on their common elements", uuid, m, n, out);
+        }
+    }
+    Ok(())
+}
+#[cfg(feature = "real")]
+pub fn merge_pair_contract(_w: &mut World, _uuid: &str, _a: &[String], _b: &[String]) -> Res {
+    Ok(())
+}
